@@ -115,13 +115,15 @@ void mmd_transclude_source(DString * source, const char * search_path, const cha
 
 	mmd_engine_free(e, false);
 
-	if (search_folder == NULL) {
-		// We don't have anywhere to search, so nothing to do
-		goto exit;
-	}
-
 	// Make sure we use a parse tree for children
 	stack * parse_stack = parsed;
+	size_t stack_depth = parsed ? parsed->size : 0;
+
+	if (search_folder == NULL) {
+		// We don't have anywhere to search, so nothing to do
+		// (parse_stack has to be set by now -- it is released at `exit`)
+		goto exit;
+	}
 
 	if (parse_stack == NULL) {
 		// Create temporary stack
@@ -129,7 +131,7 @@ void mmd_transclude_source(DString * source, const char * search_path, const cha
 	}
 
 	// Remember where we currently are in the stack
-	size_t stack_depth = parse_stack->size;
+	stack_depth = parse_stack->size;
 
 	// Iterate through source text, looking for `{{foo}}`
 
